@@ -2425,6 +2425,7 @@ class Translator:
         self.consts = {}
         self.order = []
         self.inout = {}
+        self.failed = {}
 
     def lean_name(self, q):
         return q
@@ -2444,16 +2445,23 @@ class Translator:
             funcs, _ = parsed[rel]
             for q, cfg in names.items():
                 if q not in funcs:
-                    raise TransError("%s: function %s not found" % (rel, q))
+                    self.failed[q] = "%s: function %s not found" % (rel, q)
+                    continue
                 if funcs[q][0] == "ERROR":
-                    raise TransError("%s: %s does not parse: %s" % (rel, q, funcs[q][1]))
+                    self.failed[q] = "%s: %s does not parse: %s" % (rel, q, funcs[q][1])
+                    continue
                 fq = funcs[q] if len(funcs[q]) == 4 else funcs[q] + ([],)
                 self.funcs[q] = (rel,) + fq + (cfg,)
                 self.order.append(q)
         # signatures first (calls need return types)
-        for q in self.order:
+        for q in list(self.order):
             rel, params, ret, body, generics, cfg = self.funcs[q]
-            f = Fn(self, q, params, ret, body, cfg, generics)
+            try:
+                f = Fn(self, q, params, ret, body, cfg, generics)
+            except Exception as e:
+                self.failed[q] = "%s: %s: %s" % (rel, q, e)
+                self.order.remove(q)
+                continue
             ps = [(n, f.resolve(t)) for n, t in params]
             inout = [n for n, t in ps if t and t[0] == "mutref"]
             self.inout[q] = [i for i, (n, t) in enumerate(ps) if t and t[0] == "mutref"]
@@ -2471,18 +2479,26 @@ class Translator:
                 f.ret = ("result", lt, f.ret[2] if f.ret[0] == "result" else ("named", "TzError"))
             self.sigs[q] = (ps, f.ret)
         out = []
-        for q in self.order:
+        for q in list(self.order):
             rel, params, ret, body, generics, cfg = self.funcs[q]
-            f = Fn(self, q, params, ret, body, cfg, generics)
-            f.ret = self.sigs[q][1]
-            f.inout = [n for n, t in self.sigs[q][0] if t and t[0] == "mutref"]
-            env = {}
-            binders = ["{%s : Type}" % g for g in generics]
-            for n, t in self.sigs[q][0]:
-                env[n] = strip_ref(t)
-                binders.append("(%s : %s)" % (vname(n), lean_ty(strip_ref(t))))
-            text = f.block(f.body, env, lambda v, env2: v)
-            out.append("-- %s `%s`\ndef %s %s: %s :=\n%s\n" % (rel, q.replace(".", "::"), q, "".join(b + " " for b in binders), lean_ty(f.ret), indent(text)))
+            try:
+                f = Fn(self, q, params, ret, body, cfg, generics)
+                f.ret = self.sigs[q][1]
+                f.inout = [n for n, t in self.sigs[q][0] if t and t[0] == "mutref"]
+                env = {}
+                binders = ["{%s : Type}" % g for g in generics]
+                for n, t in self.sigs[q][0]:
+                    env[n] = strip_ref(t)
+                    binders.append("(%s : %s)" % (vname(n), lean_ty(strip_ref(t))))
+                text = f.block(f.body, env, lambda v, env2: v)
+                rty = lean_ty(f.ret)
+            except Exception as e:
+                # fail closed per function: it is not emitted, nor is anything that calls it
+                self.failed[q] = "%s: %s: %s" % (rel, q, e)
+                self.order.remove(q)
+                del self.sigs[q]
+                continue
+            out.append("-- %s `%s`\ndef %s %s: %s :=\n%s\n" % (rel, q.replace(".", "::"), q, "".join(b + " " for b in binders), rty, indent(text)))
         return out
 
 
@@ -2545,22 +2561,24 @@ def main():
     tr = Translator(CONFIG)
     try:
         defs = tr.run()
-    except TransError as e:
-        sys.stderr.write("rs2lean: %s\n" % e)
-        # fail closed: an empty module makes every equality theorem fail to elaborate
-        open(os.path.join(OUT, "Src.lean"), "w").write(
-            "-- GENERATED by tools/rs2lean.py: TRANSLATION FAILED\n-- %s\nimport TzVerif.SrcPrelude\nnamespace TzVerif.Src\nend TzVerif.Src\n" % str(e).replace("\n", " "))
-        json.dump({"ok": False, "error": str(e)}, open(os.path.join(OUT, "src_report.json"), "w"), indent=1)
-        sys.exit(3)
+    except Exception as e:     # anything the translator does not expect: fail closed (empty module)
+        sys.stderr.write("rs2lean: %s: %s\n" % (type(e).__name__, e))
+        defs = []
+        tr.failed["*"] = "internal: %s: %s" % (type(e).__name__, e)
+        tr.order = []
+    fails = "".join("-- NOT TRANSLATED %s\n" % str(v).replace("\n", " ") for v in tr.failed.values())
     text = ("-- GENERATED by tools/rs2lean.py from /repo/src on every run. Do not edit.\n"
-            "-- One Lean definition per listed Rust function, translated statement by statement.\n"
+            "-- One Lean definition per listed Rust function, translated statement by statement.\n" + fails +
             "import TzVerif.SrcPrelude\nimport TzVerif.Model.TimeZone\n\nset_option linter.unusedVariables false\n\nnamespace TzVerif.Src\nopen TzVerif\n\n" + "\n".join(defs) + "\nend TzVerif.Src\n")
     path = os.path.join(OUT, "Src.lean")
     old = open(path).read() if os.path.exists(path) else None
     if old != text:
         open(path, "w").write(text)
-    json.dump({"ok": True, "functions": tr.order}, open(os.path.join(OUT, "src_report.json"), "w"), indent=1)
-    print("rs2lean: %d functions translated" % len(defs))
+    json.dump({"ok": not tr.failed, "functions": tr.order, "not_translated": tr.failed}, open(os.path.join(OUT, "src_report.json"), "w"), indent=1)
+    for v in tr.failed.values():
+        sys.stderr.write("rs2lean: %s\n" % v)
+    print("rs2lean: %d functions translated%s" % (len(defs), (", %d NOT translated" % len(tr.failed)) if tr.failed else ""))
+    sys.exit(3 if tr.failed else 0)
 
 
 if __name__ == "__main__":
